@@ -17,15 +17,24 @@ import (
 
 // A family of named struct types that share field names; the outer type also occurs nested.
 type C16Outer struct {
-	Name  string      `valid:"to=1~3|tag_outer_name"`
-	Age   int         `valid:"le=5|tag_outer_age"`
-	Code  string      `valid:"int|tag_outer_code"`
-	In    C16Inner    `valid:"exist"`
-	InP   *C16Inner   `valid:"exist"`
-	Ins   []C16Inner  `valid:"exist"`
-	Self  *C16Outer   `valid:"exist"`
-	Other C16Other    `valid:"exist"`
-	Oths  []*C16Other `valid:"exist"`
+	Name  string              `valid:"to=1~3|tag_outer_name"`
+	Age   int                 `valid:"le=5|tag_outer_age"`
+	Code  string              `valid:"int|tag_outer_code"`
+	In    C16Inner            `valid:"exist"`
+	InP   *C16Inner           `valid:"exist"`
+	Ins   []C16Inner          `valid:"exist"`
+	Self  *C16Outer           `valid:"exist"`
+	Other C16Other            `valid:"exist"`
+	Oths  []*C16Other         `valid:"exist"`
+	Bares []C16Bare           `valid:"exist"`
+	BareM map[string]*C16Bare `valid:"exist"`
+}
+
+// C16Bare has no tag rules at all: only a rule set registered for the type can judge it.
+type C16Bare struct {
+	Name string
+	Age  int
+	Code string
 }
 
 type C16Inner struct {
@@ -46,6 +55,7 @@ var (
 	tC16Outer = reflect.TypeOf(C16Outer{})
 	tC16Inner = reflect.TypeOf(C16Inner{})
 	tC16Other = reflect.TypeOf(C16Other{})
+	tC16Bare  = reflect.TypeOf(C16Bare{})
 )
 
 // markerFn is the shape of every user function in this monitor: it reports on every (non-zero)
@@ -102,6 +112,12 @@ func c16Outer(rng *rand.Rand, depth int) *C16Outer {
 	for k := rng.Intn(3); k > 0; k-- {
 		x := c16Other(rng)
 		o.Oths = append(o.Oths, &x)
+	}
+	for k := rng.Intn(3); k > 0; k-- {
+		o.Bares = append(o.Bares, C16Bare{Name: c16Str(rng), Age: rng.Intn(9), Code: c16Str(rng)})
+	}
+	if rng.Intn(2) == 0 {
+		o.BareM = map[string]*C16Bare{"k": {Name: c16Str(rng), Age: rng.Intn(9)}}
 	}
 	return o
 }
@@ -400,6 +416,12 @@ func c16Case(res *core.Result, rng *rand.Rand, idx int) {
 	if scOther != nil {
 		env.Scoped[tC16Other] = scOther
 	}
+	var scBare map[string]string
+	if rng.Intn(2) == 0 {
+		scBare = c16RuleSet(rng, "scb", nil, fnNames)
+		env.Scoped[tC16Bare] = scBare
+		res.Count("scoped_set_for_rule_less_type")
+	}
 	for _, m := range []map[string]string{unscoped, scOuter, scInner, scOther} {
 		for _, r := range m {
 			if strings.Contains(r, "nosuch_fn") {
@@ -415,7 +437,7 @@ func c16Case(res *core.Result, rng *rand.Rand, idx int) {
 		top, in = "slice", []*C16Outer{o, c16Outer(rng, 1)}
 	}
 	nScoped := 0
-	for _, m := range []map[string]string{scOuter, scInner, scOther} {
+	for _, m := range []map[string]string{scOuter, scInner, scOther, scBare} {
 		if m != nil {
 			nScoped++
 		}
@@ -423,7 +445,23 @@ func c16Case(res *core.Result, rng *rand.Rand, idx int) {
 	chain := func() *valid.VStruct {
 		vs := valid.NewVStruct()
 		if unscoped != nil {
-			vs.SetRule(toRM(unscoped))
+			switch rng.Intn(4) {
+			case 0: // the (still empty) map is handed over first and filled afterwards: it is the same map
+				rm := valid.RM{}
+				vs.SetRule(rm)
+				for k, v := range unscoped {
+					rm[k] = v
+				}
+			case 1: // an earlier registration for the same scope is replaced, also by this one
+				vs.SetRule(valid.RM{"Name": "eq=77|stale_unscoped", "Age": "eq=77|stale_unscoped"})
+				vs.SetRule(toRM(unscoped))
+			default:
+				vs.SetRule(toRM(unscoped))
+			}
+		} else if rng.Intn(6) == 0 {
+			// a stale registration replaced by an EMPTY one: no override is left
+			vs.SetRule(valid.RM{"Name": "eq=77|stale_unscoped"})
+			vs.SetRule(valid.RM{})
 		}
 		if scOuter != nil {
 			vs.SetRule(toRM(scOuter), &C16Outer{})
@@ -440,6 +478,9 @@ func c16Case(res *core.Result, rng *rand.Rand, idx int) {
 		}
 		if scOther != nil {
 			vs.SetRule(toRM(scOther), &C16Other{})
+		}
+		if scBare != nil {
+			vs.SetRule(toRM(scBare), &C16Bare{})
 		}
 		for n, f := range local {
 			vs.SetValidFn(n, f)
@@ -485,6 +526,9 @@ func c16Case(res *core.Result, rng *rand.Rand, idx int) {
 		if scOther != nil {
 			rmap[&C16Other{}] = toRM(scOther)
 		}
+		if scBare != nil {
+			rmap[&C16Bare{}] = toRM(scBare)
+		}
 		route, call = "NestedStructForRule", func() error { return valid.NestedStructForRule(in, rmap) }
 	}
 	res.Count("route|" + route)
@@ -497,7 +541,7 @@ func c16Case(res *core.Result, rng *rand.Rand, idx int) {
 	}
 	sortStrings(fns)
 	wit := vWitness{Entry: route + "/" + layout + "/" + top, Type: "C16Outer family", Value: describeValue(reflect.ValueOf(in)),
-		Rules: map[string]interface{}{"unscoped": unscoped, "scoped_outer": scOuter, "scoped_inner": scInner, "scoped_other": scOther, "per_call_functions": fns}}
+		Rules: map[string]interface{}{"unscoped": unscoped, "scoped_outer": scOuter, "scoped_inner": scInner, "scoped_other": scOther, "scoped_bare": scBare, "per_call_functions": fns}}
 	if judged, ok := compareCall(res, "C16|"+route, layout, out, exps, entryErr, env, true, wit); judged {
 		if layout != "none" || len(local) > 0 {
 			res.Distinct(fmt.Sprint(wit.Value, wit.Rules, route, top))
